@@ -239,6 +239,25 @@ def rule_change_findings(ctx, rep):
                 rep.check("R-CHANGE-FINDINGS", fn.qname, where, ok, f"lineNumber={unparse(ln) if ln is not None else '?'}", why)
     if n < 5:
         raise AnalysisError("fewer than 5 Change(...) constructions found")
+    # the lookup itself: a finding is attached when its location covers *the* line asked for -- one line, the first parameter.  A lookup that
+    # compares the location's start with one line and its end with another answers for a range of lines, and the findings of other sites on
+    # those lines (a nested call on a continuation line) are attached to this change
+    lk = ctx.prog.func("codemodder.file_context.FileContext.get_findings_for_location")
+    pp = lk.positional_params()
+    if len(pp) < 2:
+        raise AnalysisError("FileContext.get_findings_for_location(self, line_number) signature changed")
+    rr = ctx.resolver(lk)
+
+    def is_bound(e):
+        return isinstance(e, ast.Attribute) and e.attr == "line" and isinstance(e.value, ast.Attribute) and e.value.attr in ("start", "end")
+
+    cmps = [c for c in ast.walk(lk.node) if isinstance(c, ast.Compare) and any(is_bound(x) for x in [c.left] + c.comparators)]
+    if not cmps:
+        raise AnalysisError("get_findings_for_location: the comparison of the line with location.start.line / location.end.line was not found")
+    others = {unparse(rr.expand(x) if isinstance(x, ast.Name) else x) for c in cmps for x in [c.left] + c.comparators if not is_bound(x)}
+    rep.check("R-CHANGE-FINDINGS", lk.qname, lk.loc(cmps[0]), others == {pp[1]}, "lookup-single-line",
+              f"the location's start / end lines are compared with {sorted(others)}, not with the one line `{pp[1]}` the change is reported on: the lookup "
+              "covers other lines, whose findings belong to other sites")
 
 
 def rule_requested_rules(ctx, rep):
